@@ -23,6 +23,8 @@ var propRunners = map[string]func(c *Checker){
 	"C20": runC20,
 	"C03": runC03,
 	"C02": runC02,
+	"C08": runC08,
+	"C09": runC09,
 }
 
 func runProperty(P *Program, prop, tier, evid string) int {
